@@ -1354,6 +1354,22 @@ func ruleSubChunk(p *Prog, r *Result) {
 					}
 				}
 			})
+			// a full re-slice (chunk[:len(chunk)]) is the chunk itself
+			for d := 0; d < 3; d++ {
+				sl, isSl := chunk.(*ssa.Slice)
+				if !isSl {
+					break
+				}
+				lowOK := sl.Low == nil
+				if c, ok := constInt(sl.Low); sl.Low != nil && ok && c == 0 {
+					lowOK = true
+				}
+				highOK := sl.High == nil || lenOf(sl.High) == sl.X
+				if !lowOK || !highOK {
+					break
+				}
+				chunk = sl.X
+			}
 			switch x := chunk.(type) {
 			case *ssa.Parameter:
 				okv = true
